@@ -61,6 +61,11 @@ func (g *Gen) Int(bits int) int64 {
 			return int64(g.R.Intn(256) - 128)
 		}
 		if bits >= 64 {
+			// ids outside the packed 40-bit range: editor placeholder ids, 2^40, 2^44, 2^45, extremes
+			special := []int64{-1, -2, 1 << 40, 1 << 44, 1 << 45, 1<<40 - 1, 9223372036854775807, -(1 << 62), -9223372036854775808}
+			if g.R.Intn(2) == 0 {
+				return special[g.R.Intn(len(special))]
+			}
 			return g.R.Int63() // large
 		}
 		return int64(g.R.Int31())
